@@ -3724,7 +3724,7 @@ life_table = np.array(
 
 def life(image, mask=None, iterations=1):
     global life_table
-    return table_lookup(image, life_table, False)
+    return table_lookup(image, life_table, False, iterations)
 
 
 # Majority table - a pixel is 1 if the sum of it and its neighbors is > 4
